@@ -112,8 +112,59 @@ def sim_run(name, behaviours, recycle=3, timeout=1):
         return [E.status_name(c) for c in out.comparisons]
 
 
+def _sleeper(e):
+    e.wait(30)
+
+
+def event_with_killed_sleeper_real():
+    """multiprocessing.Event.set() after a process was SIGKILLed inside wait(): blocks (waits for the sleeper's ack)."""
+    import multiprocessing, threading
+    e = multiprocessing.Event()
+    p = multiprocessing.Process(target=_sleeper, args=(e,))
+    p.start()
+    time.sleep(0.5)
+    os.kill(p.pid, signal.SIGKILL)
+    p.join()
+    done = []
+    t = threading.Thread(target=lambda: (e.set(), done.append(1)))
+    t.daemon = True
+    t.start()
+    t.join(2)
+    return 'returns' if done else 'blocks'
+
+
+def event_with_killed_sleeper_sim():
+    from simkit.core import Run
+    from simkit.tape import Tape
+    from simkit.sim import Sim, SimDeadlock
+    from simkit.fake_mp import FakeMP
+    tape = Tape(1)
+    run = Run('X')
+    sim = Sim(tape, run, trace_lines=False)
+    mp_ = FakeMP(sim, run, tape)
+    out = []
+
+    def main():
+        e = mp_.Event()
+        p = mp_.Process(target=lambda: e.wait(30))
+        p.start()
+        sim.sleep(0.5)
+        p.kill()
+        p.join()
+        e.set()
+        out.append('returns')
+    try:
+        sim.run_main(main)
+    except SimDeadlock:
+        out.append('blocks')
+    return out[0] if out else 'blocks'
+
+
 def main():
     bad = 0
+    a, b = event_with_killed_sleeper_real(), event_with_killed_sleeper_sim()
+    print('%-22s real=%s sim=%s %s' % ('event_killed_sleeper', a, b, 'OK' if a == b else 'MISMATCH'))
+    bad += a != b
     for name, beh in SCENARIOS.items():
         a = real_run(name, beh)
         b = sim_run(name, beh)
